@@ -178,27 +178,27 @@ Fixpoint zs_of_sx (l : list sx) : option (list Z) :=
 Definition genv_of (x : sx) : list entry :=
   match x with SxL l => match entries_of_sx l with Some e => e | None => [] end | _ => [] end.
 
-(** input L [L addrs; L draws; dict]  ->  Configuration(addrs, dict) *)
+(** Configuration._load_ike_conf(name, conn, addrs) for the first connection of the dictionary: only whether it
+    returns and, if not, the exception class BEFORE __init__ maps it (the loaded tree is part of the full result) *)
+Definition raw_first (E : env) (addrs : list address) (d : pv) : sx :=
+  match d with
+  | PDict ((name, conn) :: _) =>
+      match load_ike_conf E addrs 0 name conn with
+      | Ok _ => SxL [SxZ 0]
+      | Raise e => SxL [SxZ 1; SxZ (exc_code e)]
+      end
+  | _ => SxNone
+  end.
+
+(** input L [L addrs; L draws; dict]  ->  L [Configuration(addrs, dict); raw result of the first connection] *)
 Definition run_load (entries : list entry) (x : sx) : sx :=
   match x with
   | SxL [SxL a; SxL dr; d] =>
       match addrs_of_sx a, zs_of_sx dr, pv_of_sx d with
       | Some addrs, Some draws, Some dict =>
-          sx_res sx_config (load (env_of entries draws) addrs dict)
+          let E := env_of entries draws in
+          SxL [sx_res sx_config (load E addrs dict); raw_first E addrs dict]
       | _, _, _ => bad_input
-      end
-  | _ => bad_input
-  end.
-
-(** input L [L addrs; L draws; name; conn]  ->  Configuration._load_ike_conf(name, conn, addrs)
-    (the exception class before __init__ maps it) *)
-Definition run_ike_conf (entries : list entry) (x : sx) : sx :=
-  match x with
-  | SxL [SxL a; SxL dr; n; d] =>
-      match addrs_of_sx a, zs_of_sx dr, pv_of_sx n, pv_of_sx d with
-      | Some addrs, Some draws, Some name, Some dict =>
-          sx_res sx_ikeconf (load_ike_conf (env_of entries draws) addrs 0 name dict)
-      | _, _, _, _ => bad_input
       end
   | _ => bad_input
   end.
